@@ -342,6 +342,9 @@ func Classes(in Input, obs []StepObs) []string {
 		}
 		if o.CLI != nil {
 			cl = append(cl, "process-level")
+			if len(in.Steps[i].Users) > 0 {
+				cl = append(cl, "process-level-live-users")
+			}
 		}
 	}
 	return cl
